@@ -55,7 +55,7 @@ SortT(S) == IF S = {} THEN <<>>
 
 \* apply all events of one instant
 ApplyAll(R, Es, s) ==
-   Combine(R, UNION {ExpandEff(R, e.ef, e.env, e.who, s) : e \in Es}, s)
+   Combine(R, UNION {ExpandEff(R, e.ef, e.env, e.who, e.j, s) : e \in Es}, s)
 
 \* S[1..n+1] or failure
 RECURSIVE RunFrom(_,_,_,_,_)
